@@ -107,7 +107,10 @@ def pipeline(ctx, replay_case=None):
     if replay_case is not None:
         judge_obs(ctx, ctx.run_exec("saveio", [replay_case], "replay", shards=1), "replay")
         return ctx.finish(LEVEL, RULE)
-    ctx.tlc_mc("SaveIO_MC.tla", "SaveIO_MC_quick.cfg" if q else "SaveIO_MC_thorough.cfg", timeout=600)
+    ctx.tlc_mc("SaveIO_MC.tla", "SaveIO_MC_quick.cfg" if q else "SaveIO_MC_thorough.cfg", timeout=900)
+    if not q:
+        # zero-length entries (a stored empty part) and every path spelling, on smaller layouts
+        ctx.tlc_mc("SaveIO_MC.tla", "SaveIO_MC_thorough0.cfg", timeout=600)
     expect_counterexample(ctx)
     ctx.assumptions.append("fault model: RLIMIT_FSIZE = k makes the write crossing byte k of a regular file fail (SIGXFSZ ignored); "
                            "/dev/full refuses every byte; failures of close()/fsync() not caused by a short write are modelled "
@@ -120,7 +123,7 @@ def pipeline(ctx, replay_case=None):
     ctx.assumptions.append("phase labels in signatures assume archive/zip buffers 4096 bytes and compress/flate holds back at most ~64 KiB")
     pre = "q-" if q else "t-"
     # every scenario of the tier's groups (SaveIO_MC.tla, AllGroups), enumerated breadth-first ...
-    cases = ctx.tlc_gen("SaveIO_MC.tla", gencfg(ctx, "gen_bfs.cfg", [pre + g for g in GROUPS]), "bfs")
+    cases = ctx.tlc_gen("SaveIO_MC.tla", gencfg(ctx, "gen_bfs.cfg", [pre + g for g in GROUPS + ([] if q else ["sweep-huge"])]), "bfs")
     # ... plus seeded random longer documents, swept
     rnd = ctx.tlc_gen("SaveIO_MC.tla", gencfg(ctx, "gen_sim.cfg", [pre + "random"]), "sim", mode="sim",
                       num=3 if q else 12, depth=12, limit=12 if q else 80)
